@@ -1,10 +1,16 @@
 pub mod c01;
+pub mod c02;
+pub mod c09;
+pub mod c14;
 
 use crate::util::RunCtx;
 
 pub fn run(ctx: &RunCtx) -> i32 {
     match ctx.property.as_str() {
         "C01" => c01::run(ctx),
+        "C02" => c02::run(ctx),
+        "C09" => c09::run(ctx),
+        "C14" => c14::run(ctx),
         other => {
             println!("MACHINERY-ERROR unknown property {}", other);
             2
